@@ -326,6 +326,12 @@ def execute(sc):
         main_task = asyncio.ensure_future(the_app.main_loop())
         await asyncio.sleep(0)
         tasks = {}
+        # a second application object of the same front-end in the same process, with an Interest of the same name pending all along:
+        # nothing that happens to the first application may complete or disturb it
+        face2 = RecFace()
+        other = appv2.NDNApp(face=face2) if fe == 'v2' else appv1.NDNApp(face=face2, keychain=KeychainDigest())
+        other_main = asyncio.ensure_future(other.main_loop())
+        await asyncio.sleep(0)
 
         def make_validator(it):
             if fe == 'v2':
@@ -394,6 +400,12 @@ def execute(sc):
             R.int_wires[it['id']] = face.sent[n0][1] if len(face.sent) > n0 else None
             return coro
 
+        other_it = {'id': 900, 'name': 'ab', 'cbp': True, 'L': 3_600_000, 'lat': 0, 'verdict': 'PASS' if fe == 'v2' else True, 'digest': None}
+        if fe == 'v2':
+            other_coro = other.express(list(NAMES['ab']), make_validator(other_it), lifetime=3_600_000, can_be_prefix=True, nonce=77)
+        else:
+            other_coro = other.express_interest(list(NAMES['ab']), validator=make_validator(other_it), lifetime=3_600_000, can_be_prefix=True, nonce=77)
+        other_task = asyncio.ensure_future(waiter(900, other_coro))
         shutdown = False
         for e in sc['events']:
             await S.sleep_until_ms(e['t'])
@@ -467,6 +479,21 @@ def execute(sc):
                 R.probe[key] = R.obs.get(100 + pi, ('open', None, None))
                 if not tk.done():
                     tk.cancel()
+        R.other_before = R.obs.get(900)
+        try:
+            await face2.deliver(bytes(make_data(NAMES['abc'], MetaInfo(), b'D900', DigestSha256Signer())))
+        except Exception as ex:   # noqa
+            R.receive_errors.append(('other-app-data', 'abc', ex))
+        await asyncio.sleep(0.05)
+        R.other_after = R.obs.get(900, ('open', None, None))
+        if not other_task.done():
+            other_task.cancel()
+        other.shutdown()
+        try:
+            await asyncio.wait_for(other_main, 5)
+        except Exception:   # noqa
+            pass
+        R.obs.pop(900, None)
         R.pit_left = len(pit())
         R.stale = 0
         for node in pit().values():
@@ -551,6 +578,13 @@ def judge(ctx, sc, R, S):
             d = res[1]
             ctx.report(f'probe-failed:{fe}:{res[0]}' + (f':{type(d).__name__}' if isinstance(d, BaseException) else ''),
                        f'after the history a fresh Interest for /{key} could not be satisfied: {res!r}', w)
+    ob, oa = getattr(R, 'other_before', None), getattr(R, 'other_after', ('open', None, None))
+    if ob is not None:
+        ctx.report(f'other-application-affected:{fe}', f'an Interest pending in ANOTHER application object of the process finished ({ob[0]}) by events of this one', w)
+    elif oa[0] != 'data':
+        ctx.report(f'other-application-broken:{fe}', f'after the history an Interest pending in another application object of the process could not be satisfied: {oa!r}', w)
+    else:
+        ctx.event('other-application-unaffected')
     if R.stale:
         ctx.report(f'pit-not-empty-at-quiescence:{fe}', f'{R.stale} pending entries (in {R.pit_left} table nodes) remain after every Interest finished', w)
     elif R.pit_left:
@@ -646,7 +680,7 @@ def exhaustive_space():
 def run(ctx):
     ctx.rule = RULE
     rng = ctx.rng
-    n = ctx.n(1600, 350000)
+    n = ctx.n(1300, 350000)
     for i in range(n):
         sc = gen_scenario(rng, 'v2' if i % 2 == 0 else 'v1')
         R, S = execute(sc)
@@ -667,7 +701,7 @@ def run(ctx):
     for lab in ('face-lost', 'late-await-data', 'late-await-nothing', 'late-await-nack', 'cancel-then-nack', 'cancel-then-data', 'reexpress-while-validating', 'tie-data-at-deadline', 'one-data-many-interests',
                 'shutdown-mixed', 'nack-for-prefix-of-pending', 'verdicts-differ', 'implicit-digest'):
         ctx.need_class('template:' + lab)
-    for k in ('outcome-data', 'outcome-timeout', 'outcome-nack', 'outcome-cancel', 'outcome-valfail', 'validator-calls', 'awaited-later-than-expressed'):
+    for k in ('outcome-data', 'outcome-timeout', 'outcome-nack', 'outcome-cancel', 'outcome-valfail', 'validator-calls', 'awaited-later-than-expressed', 'other-application-unaffected'):
         ctx.need_event(k)
     ctx.assumptions = ['exact ties (packet / validator completion / deadline in the same millisecond) accept either order',
                        'Data arrived in time but validator slower than the deadline: Data/ValidationFailure at validator completion or timeout at the deadline are both accepted here (C05 decides that clause)',
